@@ -30,20 +30,48 @@ class C20Runner:
             same = [x for x in fs if (x["claim"], x["site"].split(":")[0]) == key]
             f2 = dict(f, detail=f["detail"] + f" (and {len(same) - 1} more: " + ", ".join(x["site"].split(":", 1)[1] for x in same[1:6]) + ")")
             rep.finding(f2, {"property": pid, "finding": f2, "all": same})
-        return {"evaluations": res["entries"] + len(res["closure"]), "distinct_nontrivial": res["entries"] + len(res["closure"]),
+        # what generated networks really instantiate — the shipped examples and the smallest / extreme members of the
+        # families — lies inside the closure the manifests were just checked for
+        import gen_desc
+        closure = set(res["closure"])
+        ngen = 0
+        cases = [("example:" + os.path.basename(f), impl.load_yaml(f))
+                 for f in sorted(glob.glob(os.path.join(REPO, "floogen", "examples", "*.yml")))] + list(gen_desc.degenerate_cases())
+        for name, cfg in cases:
+            r = impl.run_floogen(cfg)
+            if not r.ok:
+                continue
+            ngen += 1
+            for m in sorted(set(re.findall(r"^\s*(floo_[A-Za-z0-9_]+)\s*#\s*\(", r.top, re.M))):
+                if m not in closure and ("instance", m) not in seen:
+                    seen.add(("instance", m))
+                    f = {"claim": "manifest-unlisted-module", "site": f"generated:{m}",
+                         "detail": f"the network generated for {name} instantiates {m}, which is not among the modules of "
+                                   "this repository that the manifests list for generated networks"}
+                    rep.finding(f, {"property": pid, "finding": f, "cfg": cfg, "module": m})
+        return {"evaluations": res["entries"] + len(res["closure"]) + ngen, "distinct_nontrivial": res["entries"] + len(res["closure"]),
                 "rule": "every file entry of every target/fileset of Bender.yml and floo_noc.core (existence or generated "
-                        "file name) + every module in the instantiation closure of the modules generated tops instantiate",
+                        "file name) + every module in the instantiation closure of the modules generated tops instantiate; the modules "
+                        "instantiated by the networks generated for the shipped examples and for the fixed list of degenerate "
+                        "descriptions lie inside that closure",
                 "samples": [{"closure": res["closure"]}], "exhaustive": True,
                 "traces_validated_against_impl": res["entries"], "disagreements_checked": 0}
 
     def replay(self, pid, payload, rep):
-        return self._again(pid, rep)
+        return self._again(pid, rep, payload)
 
-    def _again(self, pid, rep):
+    def _again(self, pid, rep, payload=None):
         import lean
         drv = lean.Driver()
         res = drv.call({"cmd": "manifest"})
         drv.close()
+        if payload and payload.get("cfg") and payload.get("module"):
+            r = impl.run_floogen(payload["cfg"])
+            mods = set(re.findall(r"^\s*(floo_[A-Za-z0-9_]+)\s*#\s*\(", r.top, re.M)) if r.ok else set()
+            print("instantiated:", sorted(mods))
+            if payload["module"] in mods and payload["module"] not in set(res["closure"]):
+                rep.finding(payload["finding"], payload)
+            return rep.exit_code()
         for f in res["findings"][:1]:
             rep.finding(f, {"property": pid, "finding": f})
         print(json.dumps(res["findings"][:10], indent=1))
